@@ -14,7 +14,14 @@ BIG = [0, -1, 1, 2 ** 31 - 1, 2 ** 31, 2 ** 32, 2 ** 63 - 1, 2 ** 63, 2 ** 64, 1
 STRS = ['', ' ', 'a', 'A' * 256, 'CUSTOM_X\n', 'CUSTOM_\x00', 'CUSTOM_é', '‮', 'null', '[]', '{}', "'; DROP TABLE x; --",
         'VCPU', 'CUSTOM_N0', '../..', '%00', '\t', '\r\n', 'in:', '!', '!in:', ',', ':', '1:', ':1', 'VCPU:', 'VCPU:x', 'VCPU:-1',
         'VCPU:0', 'VCPU:99999999999999999999', U(1), U(1).upper(), U(1).replace('-', ''), '{' + U(1) + '}', 'x' * 36,
-        '-' * 36]
+        '-' * 36, '\u00b2', 'VCPU:\u00b2', 'VCPU:\u0661', '\uff11\uff12', 'VCPU:1\u00b3', 'VCPU:\u2460', 'VCPU:+1', 'VCPU: 1', 'VCPU:1 ',
+        'VCPU:1e3', 'VCPU:0x10', 'VCPU:1_000', '\u0661', '1_0', '+5', ' 5', '5 ', '0x5', '1e2']
+# raw (already percent-encoded or deliberately broken) query-string fragments
+RAW = ['%ff', '%80abc', '%', '%zz', '%C2', '%ED%A0%80', '%00', '%0A', '+', '%2B', '%26', '%3D', 'a%', '%c3%28']
+
+
+class RawStr(str):
+    """a query value that goes into the URL as it is (no percent-encoding)"""
 
 
 def valid_requests(v=39):
@@ -166,13 +173,24 @@ def mutate(rng, tmpl):
                 what.append('query value %s' % q[i][0])
             elif q and m < 0.65:
                 i = rng.randrange(len(q))
-                q.append((q[i][0], q[i][1] if rng.random() < 0.5 else rng.choice(STRS)))
+                q.insert(rng.randrange(len(q) + 1), (q[i][0], q[i][1] if rng.random() < 0.4 else
+                                                      (str(rand_value(rng)) if rng.random() < 0.5 else rng.choice(STRS))))
                 what.append('repeated %s' % q[i][0])
+            elif q and m < 0.72:
+                i = rng.randrange(len(q))
+                key, val = q[i]
+                if ':' in str(val):          # amount of a resources parameter
+                    head = str(val).rsplit(':', 1)[0]
+                    q[i] = (key, '%s:%s' % (head, rng.choice([str(x) for x in BIG] + ['\u00b2', '\u0661\u0662', '1\u00b3', '+1', ' 1', '1e3', ''])))
+                    what.append('amount %s' % key)
+                else:
+                    q[i] = (key, RawStr(rng.choice(RAW)))
+                    what.append('raw %s' % key)
             elif m < 0.85:
-                q.append((rng.choice(['resources', 'required', 'member_of', 'in_tree', 'limit', 'group_policy', 'name', 'uuid',
+                q.insert(rng.randrange(len(q) + 1), (rng.choice(['resources', 'required', 'member_of', 'in_tree', 'limit', 'group_policy', 'name', 'uuid',
                                       'resources1', 'required1', 'same_subtree', 'root_required', 'project_id', 'user_id',
                                       'consumer_type', 'associated', 'bogus', 'resources_' + 'x' * 65, 'member_of_A']),
-                          rng.choice(STRS)))
+                          rng.choice(STRS) if rng.random() < 0.85 else RawStr(rng.choice(RAW))))
                 what.append('added query parameter')
             elif q:
                 q.pop(rng.randrange(len(q)))
@@ -208,7 +226,8 @@ def issue(app, m):
     import webob
     path = m['path']
     if m['query']:
-        path += '?' + urllib.parse.urlencode(m['query'])
+        path += '?' + '&'.join('%s=%s' % (urllib.parse.quote_plus(str(k)), v if isinstance(v, RawStr) else
+                                          urllib.parse.quote_plus(str(v))) for k, v in m['query'])
     try:
         req = webob.Request.blank(path, method=m['method'], headers=m['headers'])
     except Exception as exc:        # the client library refuses to build it: not a request the service can receive
